@@ -25,7 +25,7 @@ RULE = ("(a) every string over the 10-character alphabet {$,{,},(,),a,B,_,1,-} u
         "environment) -- enumerated cases are distinct by construction, random ones by hash.")
 ASSUMPTIONS = [
     "reference scanner zcv.model.ref_subst is a faithful reading of docs/py-mod-subst.rst and the C04 statement",
-    "zone U8: which error wins when a string holds several problems, and the letter case of the reported name, are not compared",
+    "zone U8: which error wins when a string holds several problems is not compared; the letter case of the reported name is pinned to the spelling of the reference (signature suffix ':pinned-spelling')",
     "zone U11: non-ASCII alphanumerics adjacent to a name are executed but not compared",
 ]
 ALPHABET = "${}()aB_1-"
@@ -133,6 +133,10 @@ def check_subst(s, mapping, env, env_names, getonly=False):
         e = got[1]
         if not isinstance(e.name, str) or e.name.lower() != want[1].lower():
             return ("subst:error-name", "name %r want %r" % (e.name, want[1]))
+        if e.name != want[1]:
+            # zone U8, pinned: the error carries the name as the reference spells it (the pinned
+            # tree's behaviour; the docstring speaks of the lower-cased name)
+            return ("subst:error-name:pinned-spelling", "name %r want %r" % (e.name, want[1]))
         if e.source != s:
             return ("subst:error-source", "source %r want %r" % (e.source, s))
     return None
